@@ -159,7 +159,7 @@ PROPS = {
     },
     'C06': {
         'lean': ['Netpol.Properties.C06'],
-        'families': [('exposure', 300, 12000)],
+        'families': [('exposure', 300, 12000), ('fmt', 120, 3000)],
         'shard_min': 25,
         'accept_props': ['C06'],
         'rule': 'NetworkPolicy-only worlds analysed with WithExposureAnalysis (10% also focused); K-diff: base report and exposed peers (protected flags, entries with selectors and connections) '
